@@ -17,8 +17,8 @@ def ob(name, defs, **kw):
 OBLIGATIONS = [
     ob('offs_seq_nt3', ['OFFS_SEQ', 'NT=3'], enc=['__offs', '__find_zrng', '__find_trno', 'zif_trans', 'zif_troffs'], bounds='<= 3 transitions, 3 consecutive lookups'),
     ob('find_zrng_nt4', ['FIND_ZRNG', 'NT=4'], enc=['zif_find_zrng', '__find_zrng', '__find_trno'], bounds='<= 4 transitions'),
-    ob('roundtrip_nt2', ['ROUNDTRIP', 'NT=2', 'MINGAP=172800'], enc=['zif_utc_time', 'zif_local_time', '__offs'], bounds='<= 2 transitions, cache primed by one arbitrary lookup'),
-    ob('roundtrip_nt3', ['ROUNDTRIP', 'NT=3', 'MINGAP=172800'], enc=['zif_utc_time', 'zif_local_time', '__offs'], bounds='<= 3 transitions, cache primed by one arbitrary lookup', tiers=('thorough',), timeout=3000),
+    ob('roundtrip_nt2', ['ROUNDTRIP', 'NT=2', 'MINGAP=172800'], solver='cadical', slice_formula=False, timeout=800, enc=['zif_utc_time', 'zif_local_time', '__offs'], bounds='<= 2 transitions, cache primed by one arbitrary lookup'),
+    ob('roundtrip_nt3', ['ROUNDTRIP', 'NT=3', 'MINGAP=172800'], solver='cadical', slice_formula=False, enc=['zif_utc_time', 'zif_local_time', '__offs'], bounds='<= 3 transitions, cache primed by one arbitrary lookup', tiers=('thorough',), timeout=3000),
     ob('offs_seq_nt5_anyoff', ['OFFS_SEQ', 'NT=5', 'OFFGRAN=1'], enc=['__offs'], bounds='<= 5 transitions, offsets at 1 s granularity', tiers=('thorough',), timeout=2400, unwindset={'__find_trno.*': 6}),
     ob('roundtrip_nt4_anyoff', ['ROUNDTRIP', 'NT=4', 'OFFGRAN=1', 'MINGAP=172800'], enc=['zif_utc_time', 'zif_local_time'], bounds='<= 4 transitions, offsets at 1 s granularity', tiers=('thorough',), timeout=2400),
 ]
